@@ -269,6 +269,9 @@ def cases_for(ctx, rng):
         d1 = np.round(pos[n] - pos[a]); d2 = np.round(pos[n + 1] - pos[n])
         cross = np.concatenate([base.edges.crossing, [[0, 0], [0, 0]]])
         cases.append((f"spike#{t}", "spike", Lattice(pos, edges, cross)))
+    # the fixed witness of known finding K1: a square with an inward dangling edge (always exercised)
+    cases.append(("K1-witness", "spike", Lattice(np.array([[0.2, 0.2], [0.8, 0.2], [0.8, 0.8], [0.2, 0.8], [0.5, 0.55]]),
+                                               np.array([[0, 1], [1, 2], [2, 3], [3, 0], [0, 4]]), np.zeros((5, 2), dtype=int))))
     return cases
 
 
